@@ -72,6 +72,16 @@ def vof(d, kind, v):
     return cand.value_of(d, kind, v)
 
 
+def accepted(d, schema):
+    try:
+        tp.CLS[d].check_schema(schema)
+        return True
+    except SchemaError:
+        return False
+    except Exception as e:
+        raise HarnessEscape("check_schema:" + type(e).__name__)
+
+
 def run_entry_points(d, schema, x, eps):
     """returns tag; raises HarnessEscape for anything but the documented exceptions"""
     cls = tp.CLS[d]
@@ -122,16 +132,24 @@ def single(d, k, kind, position="root", eps="core", exclude=()):
     place = cand.POSITIONS[position]
     ep_list = EPS_CORE if eps == "core" else EPS_ALL
 
-    def pre(v, x):
-        if "F10" in exclude and kind == "refstr" and v == REFS.index(NON_SCHEMA_REF):
-            return False
-        return small(v, 2, 2, 2) and small(x, 2, 2) and vok(d, kind, v)
-
-    def body(v, x):
+    def schema_of(v):
         base = {k: vof(d, kind, v)}
         if k == "$ref" or (d == 3 and k in ("extends",)):
             base["definitions"] = {"a": {"type": "integer"}}
-        return True, run_entry_points(d, place(d, base), x, ep_list)
+        return place(d, base)
+
+    def pre(v, x):
+        if "F10" in exclude and kind == "refstr" and v == REFS.index(NON_SCHEMA_REF):
+            return False
+        if not (small(v, 2, 2, 2) and vok(d, kind, v)):
+            return False
+        # the documented validity predicate, executed for real, *before* the instance is looked at: rejected schemas cost one path
+        if not accepted(d, schema_of(v)):
+            return False
+        return small(x, 2, 2)
+
+    def body(v, x):
+        return True, run_entry_points(d, schema_of(v), x, ep_list)
 
     return Spec([("v", vtype(kind)), ("x", INSTANCE)], pre, body, tags=[])
 
@@ -158,7 +176,11 @@ PAIRS = [
 
 def pairf(d, k1, kind1, k2, kind2):
     def pre(v1, v2, x):
-        return small(v1, 2, 2, 2) and small(v2, 2, 2, 2) and small(x, 2, 2) and vok(d, kind1, v1) and vok(d, kind2, v2)
+        if not (small(v1, 2, 2, 2) and small(v2, 2, 2, 2) and vok(d, kind1, v1) and vok(d, kind2, v2)):
+            return False
+        if not accepted(d, {k1: vof(d, kind1, v1), k2: vof(d, kind2, v2)}):
+            return False
+        return small(x, 2, 2)
 
     def body(v1, v2, x):
         schema = {k1: vof(d, kind1, v1), k2: vof(d, kind2, v2)}
@@ -175,6 +197,7 @@ def pattern_keys(d, i, N=1):
     def pre(j, ap, x):
         return 0 <= j < len(KEY_REGEXES) and i != j and small(x, 1, N)
 
+
     def body(j, ap, x):
         schema = {"patternProperties": {pick(KEY_REGEXES, i): {}, pick(KEY_REGEXES, j): {"type": "integer"}}, "additionalProperties": ap}
         return True, run_entry_points(d, schema, x, EPS_CORE)
@@ -190,7 +213,8 @@ def conditions(tier, seed, active):
     def c(cid, factory, params, timeout=900):
         if factory == "single":
             params = dict(params, exclude=list(active))
-        out.append(dict(id=cid, module=__name__, factory=factory, params=params, timeout=timeout, tags=[], witness=[]))
+        out.append(dict(id=cid, module=__name__, factory=factory, params=params, timeout=timeout, tags=[], witness=[],
+                        allow_vacuous=True))       # a value kind the metaschema never accepts leaves nothing to run (C11 decides acceptance)
 
     for d in (3, 4, 6, 7):
         for i in range(len(KEY_REGEXES)):
